@@ -30,9 +30,24 @@ EXPLANATION = (
 PROFS: dict[str, Prof] = {}
 
 
+_ASYM: list = []
+
+
+def asym_notation() -> Any:
+    """a binary notation that binds x0 over its second argument only: (phi0 -> exists x0. phi1)"""
+    if not _ASYM:
+        from proof_generation import pattern as P
+
+        _ASYM.append(P.Notation('asym', 2, P.Implies(P.MetaVar(0), P.Exists(0, P.MetaVar(1))), '({0} ~> {1})'))
+    return _ASYM[0]
+
+
 def _prof(name: str) -> Prof:
     if not PROFS:
         from proof_generation import pattern as P
+        from proof_generation.proofs import definedness as D
+        from proof_generation.proofs import kore as K
+        from proof_generation.proofs import substitution as S
 
         PROFS.update(
             {
@@ -45,6 +60,8 @@ def _prof(name: str) -> Prof:
                 'small': Prof(symbol=1, svar=False, mu=False, metavars=1),
                 'val': Prof(symbol=0, metavars=2, mu=False, app=False),
                 'schem': Prof(symbol=0, svar=False, mu=False, metavars=2, subst=True, mv_cfgs=((0, 0, 0, 0), (1, 0, 0, 0))),
+                'val_binder': Prof(symbol=0, svar=False, mu=False, app=True, implies=False, exists=False, metavars=0, notations=(D.functional, S.forall(0), S.forall(1), K.sorted_exists(1))),
+                'prem_asym': Prof(symbol=1, svar=False, mu=False, app=False, exists=False, metavars=0, nt_key_orders=True, notations=(asym_notation(),)),
                 'schem_nt': Prof(symbol=0, svar=False, mu=False, app=False, metavars=2, notations=(P.bot, P.neg, P._and)),
             }
         )
@@ -172,13 +189,21 @@ def h_mp_raw(ctx: Any, n: int, interp: str, twin: bool = False) -> None:
         ctx.check(not applicable, f'C07.mp.rejects-applicable[{interp}|partial-Instantiate]', lambda: f'mp({left!r}, {right!r}) raised')
 
 
-def h_gen(ctx: Any, n: int, prof: str, interp: str, twin: bool = False) -> None:
+def h_gen(ctx: Any, n: int, prof: str, interp: str, history: bool = False, twin: bool = False) -> None:
     from proof_generation import pattern as P
     from proof_generation.proof import ProofExp
     from proof_generation.proved import Proved
 
     prem = gens.gen(ctx, n, _prof(prof))
     x = ctx.int('x')
+    if history:
+        # the rule must not depend on what was asked before: the same rule runs first on the sibling premises
+        # (other constructors / shifted ids / rotated notation keys, same values) and the outcome is thrown away
+        for sib in gens.siblings(prem):
+            try:
+                _mk('basic').exists_generalization(Proved(sib), P.EVar(x))
+            except Exception:
+                ctx.count('warmup_raised')
     ep = O.expand(prem)
     applicable = ep[0] == 'imp' and O.doc_e_fresh(ep[2], x)
     res: Any = None
@@ -215,15 +240,22 @@ def h_gen(ctx: Any, n: int, prof: str, interp: str, twin: bool = False) -> None:
         ctx.check(not applicable, f'C07.gen.rejects-applicable[{interp}|{gens.kinds(prem)}]', lambda: f'gen({prem!r}, x={x}) raised')
 
 
-def h_inst(ctx: Any, n: int, m: int, prof: str, interp: str, twin: bool = False) -> None:
+def h_inst(ctx: Any, n: int, m: int, prof: str, interp: str, val: str = 'val', twin: bool = False) -> None:
+    from proof_generation import pattern as P
     from proof_generation.proof import ProofExp
     from proof_generation.proved import Proved
 
-    pr = _prof(prof)
-    prem = gens.gen(ctx, n, pr)
-    orders = gens.delta_orders(pr.metavars)
-    keys = orders[ctx.choose(len(orders), 'keys')]
-    delta = {k: gens.gen_upto(ctx, m, _prof('val')) for k in keys}
+    if prof == 'quantifier':
+        # the Quantifier schema with symbolic variables: its pending substitution is resolved on the value
+        x, y = ctx.int('x'), ctx.int('y')
+        prem = P.Implies(P.ESubst(P.MetaVar(0), P.EVar(x), P.EVar(y)), P.Exists(x, P.MetaVar(0)))
+        keys: tuple = (0,)
+    else:
+        pr = _prof(prof)
+        prem = gens.gen(ctx, n, pr)
+        orders = gens.delta_orders(pr.metavars)
+        keys = orders[ctx.choose(len(orders), 'keys')]
+    delta = {k: gens.gen_upto(ctx, m, _prof(val)) for k in keys}
     want = O.inst(O.expand(prem), {k: O.expand(v) for k, v in delta.items()})
     res: Any = None
     stack_after: Any = None
@@ -271,10 +303,15 @@ def levels(tier: str) -> list[dict]:
         for n in (5, 7) if q else (5, 7, 9):
             L.append(dict(label=f'gen/{it}/prem_and/n={n}', module=M, fn='h_gen', kwargs=dict(n=n, prof='prem_and', interp=it), budget_s=bud, required=n <= 5, twin=False))
             L.append(dict(label=f'mp/{it}/prem_and/n={n}', module=M, fn='h_mp', kwargs=dict(n=n, m=1, prof='prem_and', interp=it), budget_s=bud, required=n <= 5, twin=False))
+        for n in ([5] if q else [5, 7]):
+            L.append(dict(label=f'gen/{it}/after-sibling-calls/asymmetric-binder-notation/n={n}', module=M, fn='h_gen', kwargs=dict(n=n, prof='prem_asym', interp=it, history=True), budget_s=bud, required=n <= 5, twin=False))
+        L.append(dict(label=f'gen/{it}/after-sibling-calls/prem_nt/n=4', module=M, fn='h_gen', kwargs=dict(n=4, prof='prem_nt', interp=it, history=True), budget_s=bud, required=True, twin=False))
         L.append(dict(label=f'gen/{it}/prem_ss/n=5', module=M, fn='h_gen', kwargs=dict(n=5, prof='prem_ss', interp=it), budget_s=bud, required=True, twin=False))
         if it != 'thunk':
             for n in (1, 3):
                 L.append(dict(label=f'mp/{it}/partial-instantiate/body={n}', module=M, fn='h_mp_raw', kwargs=dict(n=n, interp=it), budget_s=bud, required=True, twin=False))
+        for m in ([2, 3, 4] if q else [2, 3, 4, 5]):
+            L.append(dict(label=f'inst/{it}/quantifier-schema/binder-notation-value<={m}', module=M, fn='h_inst', kwargs=dict(n=0, m=m, prof='quantifier', interp=it, val='val_binder'), budget_s=bud, required=m <= 4, twin=False))
         for pn in ('schem', 'schem_nt'):
             for n in ([1, 2, 3] if q else [1, 2, 3, 4]):
                 L.append(dict(label=f'inst/{it}/{pn}/n={n}', module=M, fn='h_inst', kwargs=dict(n=n, m=1 if q else 2, prof=pn, interp=it), budget_s=bud, required=n <= 3, twin=(n == 2)))
